@@ -123,7 +123,8 @@ def universe(tier):
             # no value of their own take the nearest ancestor's, whichever statement comes first in the body)
             if len(sids) >= 3:
                 tid = first_two_leaves(base["tasks"])[0]
-                pairs = [("effort", "x2", "half")] + ([("end", "2025-01-15-17:00", "2025-01-14-12:00")] if base["alap"] else [("start", "2025-01-08-10:00", "2025-01-09-13:00")])
+                # ("same": the nested scenario states exactly the task's plain value again, while its parent scenario overrides it)
+                pairs = [("effort", "x2", "half"), ("effort", "x2", "same")] + ([("end", "2025-01-15-17:00", "2025-01-14-12:00")] if base["alap"] else [("start", "2025-01-08-10:00", "2025-01-09-13:00")])
                 for attr, v1, v2 in pairs:
                     for sa, sb in itertools.permutations(sids, 2):
                         yield {"bi": bi, "tier": tier, "tree": tk, "ov": ((sa, tid, attr, v1), (sb, tid, attr, v2))}
@@ -144,6 +145,8 @@ def value_of(t, attr, how):
     if attr == "effort":
         if how == "big":
             return 4800
+        if how == "same":
+            return t["effort"]
         return t["effort"] * 2 if how == "x2" else max(10, t["effort"] // 2)
     return how
 
